@@ -1,4 +1,39 @@
-(* C12 placeholder, replaced below *)
-From RV Require Import Model.Mapping.
-Theorem C12_placeholder : True. Proof. exact I. Qed.
-Eval cbv in "ASSUMPTIONS-OF C12_placeholder"%string. Print Assumptions C12_placeholder.
+(* C12  Rendering is deterministic and independent of threads and order.
+   In the model a node's render is a function of (inventory, configuration, node name) by
+   construction; what is proved here is that the aggregation of the worker results does not
+   depend on the order in which they arrive (any schedule of the parallel collect).
+   PARTIAL (see DESIGN): absence of shared mutable state between threads is a runtime fact,
+   covered by the multi-pool differential runs of the check. *)
+From RV Require Import Model.Node Proofs.SortFacts Proofs.InventoryFacts.
+From Coq Require Import Permutation.
+
+Theorem C12_aggregation_is_order_independent :
+  forall rs rs' inv,
+    Permutation rs rs' -> all_ok rs -> inventory_of rs empty_inventory = Ok inv ->
+    exists inv', inventory_of rs' empty_inventory = Ok inv' /\
+      (forall c, ix_get c (inv_classes inv') = ix_get c (inv_classes inv)) /\
+      (forall a, ix_get a (inv_apps inv') = ix_get a (inv_apps inv)) /\
+      Permutation (inv_nodes inv') (inv_nodes inv).
+Proof. exact inventory_order_independent. Qed.
+Eval cbv in "ASSUMPTIONS-OF C12_aggregation_is_order_independent"%string. Print Assumptions C12_aggregation_is_order_independent.
+
+Theorem C12_failure_is_order_independent :
+  forall rs rs', Permutation rs rs' -> ~ all_ok rs -> ~ all_ok rs'.
+Proof. exact inventory_failure_order_independent. Qed.
+Eval cbv in "ASSUMPTIONS-OF C12_failure_is_order_independent"%string. Print Assumptions C12_failure_is_order_independent.
+
+(** Each node's entry in the full inventory is what rendering that node alone returns: the node
+    map is literally the list of single-node results. *)
+Theorem C12_entry_is_the_single_render :
+  forall (names : list string) (render : string -> res nodeinfo) inv,
+    let rs := map (fun n => (n, render n)) names in
+    all_ok rs -> inventory_of rs empty_inventory = Ok inv ->
+    forall n i, In (n, i) (inv_nodes inv) -> render n = Ok i.
+Proof.
+  intros names render inv rs Hall H n i Hin.
+  destruct (inventory_index_exact rs inv Hall H) as (_ & _ & Hn). rewrite Hn in Hin. clear - Hin.
+  subst rs. induction names as [|x names IH]; cbn [map oks_of] in Hin; [destruct Hin|].
+  destruct (render x) eqn:E; try (apply IH, Hin).
+  destruct Hin as [Hin|Hin]; [injection Hin as <- <-; exact E | apply IH, Hin].
+Qed.
+Eval cbv in "ASSUMPTIONS-OF C12_entry_is_the_single_render"%string. Print Assumptions C12_entry_is_the_single_render.
